@@ -1,5 +1,6 @@
 import WacProofs.Lemmas.EncodeImports2
 import WacProofs.Lemmas.Toposort
+import WacProofs.Lemmas.SpecFold
 /-
   C02 — encoded wiring is exactly the composition graph (translation validation, proved once
   for all graph values).
@@ -88,6 +89,118 @@ theorem wiring_encode_partial {g : GraphVal} {o : Opts} {s : Skeleton} {order : 
           rw [hw4, hw3]
           simp only [core, specWiringWith, others, hss, inv2.insts, inv2.aliases, inv2.exports, inv2.comps,
             inv2.names, specExports, List.nil_append]
+
+/-! ### consequences, stated separately (each is a reading of the equation above) -/
+
+/-- the specification's state after the fold: the designated term of every node -/
+def specState (g : GraphVal) (cn : Str → Str) (define : Bool) (ord : List Nat) : SpecSt :=
+  ord.foldl (specNode g cn define) { terms := importTerms g cn }
+
+/-- the item the composition designates for node `n` -/
+def designated (g : GraphVal) (cn : Str → Str) (define : Bool) (ord : List Nat) (n : Nat) : Term :=
+  (specState g cn define ord).term n
+
+section
+variable {g : GraphVal} {o : Opts} {s : Skeleton} {order : List Nat} {agg : Agg}
+  (wf : WF g) (ht : toposort g = .ok order) (hagg : aggOf g (importsOf g order) = some agg) (hok : AggOk g agg)
+  (he : encode g o = .ok s)
+include wf ht hagg hok he
+
+/-- `one_instantiate_per_node`: the skeleton has exactly one instantiate item per instantiation
+    node of the emission order (which lists every node once, `toposort_sound`) -/
+theorem one_instantiate_per_node :
+    (wiring s).insts.length = ((others g order).filter (isInstOf g)).length := by
+  have h := congrArg Wiring.insts (wiring_encode_partial wf ht hagg hok he)
+  simp only [core, specWiringWith] at h
+  rw [h, fold_insts_length]
+  simp
+
+/-- `each_package_embedded_once`: with dependencies embedded, the embedded components are the
+    instantiated packages, each once, in order of first instantiation; with dependencies imported
+    nothing is embedded -/
+theorem each_package_embedded_once :
+    ∃ seen : List Nat, seen.Nodup ∧
+      (o.define = true → (wiring s).comps = seen.filterMap fun slot => (g.pkg? slot).map (·.bytesId)) ∧
+      (o.define = false → (wiring s).comps = []) := by
+  have h := congrArg Wiring.comps (wiring_encode_partial wf ht hagg hok he)
+  simp only [core, specWiringWith] at h
+  have ok := fold_seenOk g agg.canonical o.define (others g order) { terms := importTerms g agg.canonical }
+    ⟨by simp, fun _ => rfl, fun _ => rfl⟩
+  exact ⟨_, ok.nodup, fun hd => by rw [h]; exact ok.comps hd, fun hd => by rw [h]; exact ok.nocomps hd⟩
+
+/-- `export_binds_designated`: every entry `(name, node)` of the export map that is not the
+    defining name of a definition is an export item of the skeleton binding `name`, with the
+    node's kind, to the node's designated item -/
+theorem export_binds_designated (name : Str) (id : Nat) (hmem : (name, id) ∈ g.exports) (n : Node)
+    (hn : g.node? id = some n) (hnd : ¬ (n.isDefinition = true ∧ n.exportName = some name)) :
+    (name, n.ty.kind, designated g agg.canonical o.define (others g order) id) ∈ (wiring s).exports := by
+  have h := congrArg Wiring.exports (wiring_encode_partial wf ht hagg hok he)
+  simp only [core, specWiringWith] at h
+  rw [h]
+  apply List.mem_append_right
+  simp only [specExports, List.mem_filterMap]
+  exact ⟨(name, id), hmem, by simp [specExport1, hn, hnd, designated, specState]⟩
+
+/-- `names_map_to_realising_index`: every named node is named, in the map of its kind, at the
+    index of its designated item -/
+theorem names_map_to_realising_index (n : Node) (hn : n ∈ g.nodes) (nm : Str) (hname : n.name = some nm) :
+    (n.ty.kind, designated g agg.canonical o.define (others g order) n.id, nm) ∈ (wiring s).names := by
+  have h := congrArg Wiring.names (wiring_encode_partial wf ht hagg hok he)
+  simp only [core, specWiringWith] at h
+  rw [h]
+  simp only [specNames, List.mem_flatMap, List.mem_filterMap]
+  refine ⟨n.ty.kind, by cases n.ty.kind <;> simp, n, hn, by simp [specName1, hname, designated, specState]⟩
+
+/-- `alias_reads_designated`: every alias item of the skeleton reads the designated export of the
+    designated instance of an alias node: instance = the designated term of the node's source
+    (`bad` only if the source was not emitted before the alias, which `toposort_sound` excludes
+    for sources that are live nodes) -/
+theorem alias_reads_designated (a : Term × Kind × Str) (ha : a ∈ (wiring s).aliases) :
+    ∃ id n src, g.node? id = some n ∧ n.kind = .alias ∧ n.aliasSource = some (src, a.2.2) ∧ a.2.1 = n.ty.kind ∧
+      (a.1 = designated g agg.canonical o.define (others g order) src ∨ a.1 = .bad) := by
+  have h := congrArg Wiring.aliases (wiring_encode_partial wf ht hagg hok he)
+  simp only [core, specWiringWith] at h
+  rw [h] at ha
+  have ok := fold_readsOk g agg.canonical o.define (others g order) { terms := importTerms g agg.canonical }
+    ⟨by simp, by simp⟩
+  obtain ⟨id, n, src, h1, h2, h3, h4, h5⟩ := ok.aliases a ha
+  refine ⟨id, n, src, h1, h2, h3, h4, ?_⟩
+  rcases h5 with h5 | h5
+  · left
+    simp [designated, specState, SpecSt.term]
+    have : natGet (List.foldl (specNode g agg.canonical o.define) { terms := importTerms g agg.canonical } (others g order)).terms src = some a.1 := h5
+    simp [natGet] at this
+    obtain ⟨x, hx⟩ := this
+    simp [hx]
+  · exact Or.inr h5
+
+/-- `arg_is_designated_item`: every argument of every instantiate item is the designated item:
+    for the name of an argument edge the designated term of the edge's source node (an explicit
+    import, a named export of a specific instance, …), otherwise the implicit import of that name
+    under its canonical name -/
+theorem arg_is_designated_item (i : InstW) (hi : i ∈ (wiring s).insts) (a : Str × Kind × Term) (ha : a ∈ i.args) :
+    (∃ id n src, g.node? id = some n ∧ (a.1, src) ∈ n.args ∧ a.2.1 = kindOf g src ∧
+      (a.2.2 = designated g agg.canonical o.define (others g order) src ∨ a.2.2 = .bad)) ∨
+    a.2.2 = .imp (agg.canonical a.1) := by
+  have h := congrArg Wiring.insts (wiring_encode_partial wf ht hagg hok he)
+  simp only [core, specWiringWith] at h
+  rw [h] at hi
+  have ok := fold_readsOk g agg.canonical o.define (others g order) { terms := importTerms g agg.canonical }
+    ⟨by simp, by simp⟩
+  rcases ok.args i hi a ha with ⟨id, n, src, h1, h2, h3, h5⟩ | h'
+  · left
+    refine ⟨id, n, src, h1, h2, h3, ?_⟩
+    rcases h5 with h5 | h5
+    · left
+      have : natGet (List.foldl (specNode g agg.canonical o.define) { terms := importTerms g agg.canonical } (others g order)).terms src = some a.2.2 := h5
+      simp [designated, specState, SpecSt.term]
+      simp [natGet] at this
+      obtain ⟨x, hx⟩ := this
+      simp [hx]
+    · exact Or.inr h5
+  · exact Or.inr h'
+
+end
 
 /-- `toposort_sound`: a successful toposort lists every live node exactly once, and every node
     after all the sources of its incoming edges (argument sources, alias source, type
